@@ -21,10 +21,8 @@ func vxDrain(c Collection) {
 	if !vxSymbolic() {
 		tries = 100 // natively "quiesce" is a sleep: poll until persisted
 	}
-	kicked := false
-	for n := 0; n < tries && (isDirty() || (!kicked && len(cc.childCollections) > 0)); n++ {
+	for n := 0; n < tries && isDirty(); n++ {
 		cc.NotifyMerger("go", true)
-		kicked = true
 		vxQuiesce()
 	}
 }
